@@ -165,6 +165,17 @@ def check_independence(run: Run, stream, xml):
                 if stack() != inner:
                     run.violation(stream, case, {"why": "default filter stack changed by an observation", "before": len(inner), "after": len(stack())})
                 mut = mutating_observations(xml)
+                # calls that end with an exception must leave the caller's filters alone as well
+                for label, call in raising_calls(doc):
+                    try:
+                        call()
+                        run.count("raising call", label + ": no exception")
+                    except Exception as e:  # noqa: BLE001
+                        run.count("raising call", label + ": " + type(e).__name__)
+                    if stack() != inner:
+                        run.violation(stream, case, {"why": f"default filter stack changed by a call that raised ({label})",
+                                                     "before": len(inner), "after": len(stack())})
+                        break
         except Exception as e:  # noqa: BLE001
             run.violation(stream, case, {"why": f"observation raised {type(e).__name__}: {e}"})
             continue
@@ -183,6 +194,31 @@ def check_independence(run: Run, stream, xml):
         for k in mut:
             if mut[k] != ref_mut.get(k):
                 run.violation(stream, case, {"why": f"result of `{k}` depends on the ambient filters", "under default": ref_mut.get(k), "under " + name: mut[k]})
+
+
+def raising_calls(doc):
+    """library calls on `doc` that are expected to fail (the document is left as it is)"""
+    from delb import FormatOptions, tag
+
+    root = doc.root
+    return [
+        ("xpath unknown prefix", lambda: list(root.xpath("//undeclared:a"))),
+        ("xpath syntax", lambda: root.xpath("a[")),
+        ("xpath unsupported", lambda: list(root.xpath("//a/@k"))),
+        ("xpath type error", lambda: list(root.xpath("//*[@k > 1]"))),
+        ("css unsupported", lambda: root.css_select("a + b")),
+        ("css pseudo class", lambda: root.css_select("a:first-child")),
+        ("document xpath", lambda: list(doc.xpath("//undeclared:a"))),
+        ("fetch_or_create ambiguous expression", lambda: root.fetch_or_create_by_xpath("a|b")),
+        ("fetch_or_create unknown prefix", lambda: root.fetch_or_create_by_xpath("undeclared:q/r")),
+        ("detach document root", lambda: root.detach()),
+        ("append attached node", lambda: root.append_children(root.first_child) if root.first_child is not None else None),
+        ("insert beyond", lambda: root.insert_children(99, "x")),
+        ("index beyond", lambda: root[99]),
+        ("serialize with reserved prefix", lambda: root.serialize(namespaces={"xml": "urn:x"})),
+        ("serialize with bad indentation", lambda: root.serialize(format_options=FormatOptions(align_attributes=False, indentation="x", width=0))),
+        ("replace root", lambda: root.replace_with(tag("n"))),
+    ]
 
 
 def build_nodes(doc):
